@@ -27,8 +27,19 @@ Lean model of the pinned diff (`carriesChild`) says whether this is finding F5 (
   (`FlatTree.treeRun`) and (b) — `C05_eval_respects_agreement` — the same returned values of the reference evaluator
   `Core.eval` on the voice's body, sample after sample, all run lengths (`FlatTree.instRun`), for every body whose stateful
   sites are covered by the voice's labelled layout.
-PARTIAL: the runtimes themselves are corresponded, not modelled; that the voice's published layout covers its body in the
-sense of `FlatTree.Covers` is the compiler's (mirgen's) job and is a hypothesis here (judged by C05's trace checker on the real VM).
+* WHOLE SESSIONS (second half of this file, namespace `Mimium.LiveCoding`; model `Model/LiveCoding.lean`: `session` = run, hot
+  swap, run … on the reference semantics, each swap = serialise under the published layout, migrate with the model of
+  `Machine::new_resume`, read back under the new published layout): `C07_swapState_carried_voice`,
+  `C07_session_untouched_voice_transplant` (any programs), `C07_session_fresh_voice` (new sites start from zero),
+  **`C07_session_untouched_voice`** (voice programs `let c_i = f_i(k_i); …; (c_a, c_b)`: after the swap every channel observing
+  an untouched, carried voice carries exactly the values the voice ALONE returns when continued from its pre-swap state),
+  `C07_session_untouched_voice_as_uninterrupted` (… which are the values of the old program's uninterrupted run),
+  `C07_voice_program_channel`, `C07_carriesChild_gives_carried_range`.
+PARTIAL: the runtimes themselves are corresponded (since this revision against the PREDICTED stream of `session`, sample by
+sample), not proved; the session theorems cover call-site voices (not the dsp-level `delay`/`mem` cells the generator wraps
+around a third of the voices, nor voices nested deeper by an edit); conformance of the reached state trees (ring lengths,
+`self` values of the declared shape — typing facts) and error-freedom of the voice's own run are hypotheses; `Covers` is
+discharged by C05's publish theorems where a program is given (`C07_session_*`), a hypothesis in `C07_carried_words_same_future`.
 -/
 namespace Mimium.Migration
 open Mimium.StateTree
